@@ -376,3 +376,5 @@ def check(ctx):
     check_exceptions(ctx, la)
     check_atomics(ctx)
     check_dbiter_confined(ctx)
+    from . import c13
+    c13.check_cache_pins(ctx)     # objects reached through a cache handle are not touched after the handle is released
